@@ -58,6 +58,8 @@ CONSTANTS Peers,         \* peer ids
           NT,            \* slots for concurrently alive Sync goroutines
           FollowRetries, \* TRUE = as coded since fix F3 (FALSE: errChan was a nil channel, no retry ever)
           FollowAppend,  \* TRUE = as coded since fix F4 (FALSE: the follow stack had no appendStore)
+          PinsOperatorHash, \* TRUE = as coded: StartFollowChain recomputes the hash of the chain info it fetched and
+                         \* compares it with the operator's; FALSE: it trusts the hash FIELD of a peer's packet
           ResyncChecksRound, \* TRUE = as coded since fix F32 (FALSE: resync wrote any verified round)
           MaxAgg,        \* aggregator puts (run mode)
           QCap,          \* modelled capacity of s.newReq (3 in the code)
@@ -84,7 +86,7 @@ VARIABLES cfg,      \* scenario: mode, chained, start, target, ptype, corrupt, s
 
 vars == <<cfg, store, alast, slast, called, tasks, queue, age, cur, ctxDone, notif, drv, agg, obs>>
 
-Kinds == {"Honest", "Silent", "Stall", "CloseEarly", "BadSig", "WrongRound", "ForeignId"}
+Kinds == {"Honest", "Silent", "Stall", "CloseEarly", "BadSig", "WrongRound", "ForeignId", "LyingInfo"}
 Liars == {"BadSig", "WrongRound", "ForeignId"}
 Rounds == 0..MaxR
 
@@ -106,6 +108,9 @@ StoreHead(s) == CHOOSE r \in DOMAIN s : s[r] # "none" /\ \A q \in DOMAIN s : q >
 \*       "wrong"  valid beacon of a round that is not the next of the stream
 \*       "badsig" beacon of `round` whose signature does not verify
 \*       "foreign" valid beacon of `round` under another beacon id
+\*       "forged" beacon of `round` of the peer's OWN chain: it verifies under that peer's key only
+\*                (peer kind "LyingInfo": its chain-info packet carries the genuine chain hash in the
+\*                hash field but the peer's own public key and genesis seed)
 \*       "close"  the channel is closed      "block"  nothing arrives
 ItemOf(kind, k, from, pos, hd) ==
   LET r == from + pos
@@ -114,6 +119,7 @@ ItemOf(kind, k, from, pos, hd) ==
       good(x) == IF x <= hd THEN [t |-> "good", round |-> x] ELSE blk
   IN IF from > hd THEN cls                      \* server: "no beacon stored above"
      ELSE CASE kind = "Honest" -> good(r)
+            [] kind = "LyingInfo" -> IF r <= hd THEN [t |-> "forged", round |-> r] ELSE blk
             [] kind = "Stall" -> IF pos < k THEN good(r) ELSE blk
             [] kind = "CloseEarly" -> IF pos < k /\ r <= hd THEN good(r) ELSE cls
             [] kind = "BadSig" -> IF pos = k /\ r <= hd THEN [t |-> "badsig", round |-> r] ELSE good(r)
@@ -129,10 +135,20 @@ ItemOf(kind, k, from, pos, hd) ==
 \* A valid beacon of a round the store already has is a harmless duplicate (race with the
 \* aggregator or with a second Sync goroutine).
 IsLie(t, resync, round, headBefore, requested) ==
-  \/ t \in {"badsig", "foreign"}
+  \/ t \in {"badsig", "foreign", "forged"}
   \/ IF resync THEN round \notin requested ELSE round > headBefore + 1
-\* Items that pass the beacon-id test and VerifyBeacon
+\* Items that pass the beacon-id test and VerifyBeacon under the genuine chain's key
 Verified(t) == t \in {"good", "wrong"}
+\* ... under the key the client pinned ("genuine", or "liar" when it took a LyingInfo peer's key)
+VerifiedUnder(pin, t) == IF pin = "liar" THEN t = "forged" ELSE Verified(t)
+
+\* StartFollowChain / chainInfoFromPeers over the peer kinds in the order the operator listed them:
+\* as coded every peer is asked, the last decodable packet wins and its RECOMPUTED hash must equal the
+\* operator's hash (a lying packet there makes follow refuse); when only the packet's hash field is
+\* trusted, the first peer declaring the operator's hash wins - a LyingInfo peer declares it too.
+PinOf(kinds, recompute) ==
+  IF recompute THEN (IF kinds[Len(kinds)] = "LyingInfo" THEN "refused" ELSE "genuine")
+  ELSE (IF kinds[1] = "LyingInfo" THEN "liar" ELSE "genuine")
 
 \* s.store.Put of a VERIFIED beacon of `round` (not resync).
 \*   stack "full"   : callback -> append -> scheme -> discrepancy -> base   (chainstore.go)
@@ -212,7 +228,12 @@ Init ==
                  corrupt |-> co, store0 |-> InitStore(st, co)]
        /\ store = InitStore(st, co)
        /\ alast = StoreHead(InitStore(st, co)) /\ slast = StoreHead(InitStore(st, co))
-       /\ drv = [phase |-> IF m = "follow" THEN "start" ELSE IF m = "repair" THEN "check" ELSE "run",
+       /\ drv = [phase |-> IF m = "follow"
+                             THEN (IF PinOf([p \in 1..Cardinality(Peers) |-> PT[pt[p]][1]], PinsOperatorHash) = "refused"
+                                     THEN "refused" ELSE "start")
+                             ELSE IF m = "repair" THEN "check" ELSE "run",
+                 pin |-> IF m = "follow" /\ PinOf([p \in 1..Cardinality(Peers) |-> PT[pt[p]][1]], PinsOperatorHash) = "liar"
+                           THEN "liar" ELSE "genuine",
                  reported |-> {}, todo |-> <<>>, retried |-> FALSE, failed |-> {}]
   /\ called = [p \in Peers |-> FALSE]
   /\ tasks = [i \in 1..NT |-> FreeTask]
@@ -269,10 +290,11 @@ TaskItem(i) ==
      \/ /\ it.t = "close"
         /\ tasks' = [tasks EXCEPT ![i] = abandon]
         /\ UNCHANGED <<store, alast, slast, notif>> /\ obs' = H([kind |-> "closed"])
-     \/ /\ it.t \in {"badsig", "foreign"}            \* wrong beaconID / invalid beacon
+     \/ /\ it.t \in {"badsig", "foreign", "forged", "good", "wrong"} /\ ~VerifiedUnder(drv.pin, it.t)
+                                                   \* wrong beaconID / invalid beacon under the pinned key
         /\ tasks' = [tasks EXCEPT ![i] = abandon]
         /\ UNCHANGED <<store, alast, slast, notif>> /\ obs' = H([kind |-> "rejected", t |-> it.t])
-     \/ /\ Verified(it.t)
+     \/ /\ VerifiedUnder(drv.pin, it.t)
         /\ LET t1 == [t EXCEPT !.lput = it.round]
                \* the stream is tainted for the items that FOLLOW a lie
                t2(x) == [x EXCEPT !.taint = @ \/ IsLie(it.t, t.rfrom > 0, it.round, hb, t.rfrom..t.upTo)]
@@ -285,19 +307,19 @@ TaskItem(i) ==
                   /\ obs' = H([kind |-> "rejected", t |-> "unrequested"])
            ELSE IF t.rfrom > 0
              THEN \* resync: insecureStore.Put of a requested (or, before F32, any) verified round
-                  /\ store' = [store EXCEPT ![it.round] = "ok"]
+                  /\ store' = [store EXCEPT ![it.round] = IF Verified(it.t) THEN "ok" ELSE "bad"]
                   /\ UNCHANGED <<alast, slast>>
                   /\ tasks' = [tasks EXCEPT ![i] = stored(t2(t1))]
                   /\ notif' = 1
-                  /\ obs' = H(PutObs(t1, it.round, hb, "ok"))
+                  /\ obs' = H([PutObs(t1, it.round, hb, "ok") EXCEPT !.verifies = Verified(it.t)])
              ELSE LET res == SecurePut(StackOf(cfg.mode), cfg.chained, alast, slast, it.round) IN
                   CASE res = "ok" ->
-                         /\ store' = [store EXCEPT ![it.round] = "ok"]
+                         /\ store' = [store EXCEPT ![it.round] = IF Verified(it.t) THEN "ok" ELSE "bad"]
                          /\ alast' = IF StackOf(cfg.mode) = "full" THEN it.round ELSE alast
                          /\ slast' = it.round
                          /\ tasks' = [tasks EXCEPT ![i] = stored(t2(t1))]
                          /\ notif' = 1
-                         /\ obs' = H(PutObs(t1, it.round, hb, "ok"))
+                         /\ obs' = H([PutObs(t1, it.round, hb, "ok") EXCEPT !.verifies = Verified(it.t)])
                     [] res = "already" ->
                          /\ UNCHANGED <<store, alast, slast, notif>>
                          /\ tasks' = [tasks EXCEPT ![i] =
